@@ -385,9 +385,9 @@ func (a *Accounts) SetLockStakeUntilBlock(address types.Address, h uint64) {
 
 func (a *Accounts) GetLockStakeUntilBlock(address types.Address) uint64 {
 	account := a.getOrNew(address)
-	account.lock.RLock()
-	defer account.lock.RUnlock()
 
+	// getLockStakeUntilBlock takes the model's lock itself: taking it here too is a recursive RLock,
+	// which deadlocks as soon as a writer asks for the lock in between
 	return account.getLockStakeUntilBlock()
 }
 
